@@ -144,7 +144,8 @@ func HasLessPrecedence(current Token, next Token) bool {
 	// left associative. If we see another of the same type don't add onto the pile.
 	// right associative would return true here.
 	if current.Typ == next.Typ {
-		return false
+		// prefix operators nest to the right (NOT NOT a, - -a)
+		return current.Typ == TNot || current.Typ == TPlus || current.Typ == TMinus
 	}
 
 	// lower numbers mean higher precedence
